@@ -2039,7 +2039,45 @@ func verifC15Diff(vc *verifCtx, kv, sq *verifC15Run) {
 	}
 }
 
+// verifC15FastTmp points TMPDIR (t.TempDir, hence both stores' files) at a
+// private directory on tmpfs when there is one: the stores fsync on every
+// transaction and durability is not part of this property (3x faster).
+var verifC15TmpCleanup = func() {}
+
+func verifC15FastTmp() {
+	const base = "/dev/shm"
+	if st, err := os.Stat(base); err != nil || !st.IsDir() {
+		return
+	}
+	// leftovers of killed runs
+	if ents, err := os.ReadDir(base); err == nil {
+		for _, e := range ents {
+			if !strings.HasPrefix(e.Name(), "verifc15-") {
+				continue
+			}
+			if fi, err := e.Info(); err == nil && time.Since(fi.ModTime()) > 3*time.Hour {
+				os.RemoveAll(filepath.Join(base, e.Name()))
+			}
+		}
+	}
+	dir, err := os.MkdirTemp(base, "verifc15-")
+	if err != nil {
+		return
+	}
+	old, had := os.LookupEnv("TMPDIR")
+	os.Setenv("TMPDIR", dir)
+	verifC15TmpCleanup = func() {
+		if had {
+			os.Setenv("TMPDIR", old)
+		} else {
+			os.Unsetenv("TMPDIR")
+		}
+		os.RemoveAll(dir)
+	}
+}
+
 func verifC15Finish(vc *verifCtx) {
+	verifC15TmpCleanup()
 	if verifC15Inconclusive.Load() {
 		// No "done" record: the driver reports the shard as ended
 		// early (inconclusive). Violations already emitted are kept.
@@ -2052,9 +2090,10 @@ func verifC15Finish(vc *verifCtx) {
 
 func TestVerifC15(t *testing.T) {
 	vc := verifStart(t, "C15", "seq")
+	verifC15FastTmp()
 	defer verifC15Finish(vc)
 
-	total := vc.N(1200, 110000)
+	total := vc.N(3000, 300000)
 	for i := 0; i < total; i++ {
 		if !vc.Mine(i) {
 			continue
@@ -2080,7 +2119,7 @@ func TestVerifC15(t *testing.T) {
 					vc.Count("nontrivial_runs", 1)
 				}
 			}
-			if i%97 == 0 {
+			if i%997 == 0 {
 				vc.Sample(map[string]any{"case": i, "input": in, "kv_trace": runs[0].trace, "kv_final": runs[0].finalState()})
 			}
 		}
@@ -2093,9 +2132,10 @@ func TestVerifC15(t *testing.T) {
 
 func TestVerifC15Conc(t *testing.T) {
 	vc := verifStart(t, "C15", "conc")
+	verifC15FastTmp()
 	defer verifC15Finish(vc)
 
-	total := vc.N(160, 6000)
+	total := vc.N(600, 12000)
 	for i := 0; i < total; i++ {
 		if !vc.Mine(i) {
 			continue
